@@ -30,6 +30,16 @@ static sqfs_object_t *xattr_writer_copy(const sqfs_object_t *obj)
 	if (rbtree_copy(&xwr->kv_block_tree, &copy->kv_block_tree) != 0)
 		goto fail_tree;
 
+	/*
+	 * The memcpy above left us with the original's block list and with a
+	 * tree whose compare callback gets the original writer as context.
+	 * Rebuild the list from our own tree nodes and compare against our
+	 * own key-value pairs.
+	 */
+	copy->kv_block_tree.key_context = copy;
+	copy->kv_block_first = NULL;
+	copy->kv_block_last = NULL;
+
 	for (it = xwr->kv_block_first; it != NULL; it = it->next) {
 		rbtree_node_t *n = rbtree_lookup(&copy->kv_block_tree, it);
 
